@@ -1,14 +1,17 @@
-"""symx.vfs -- in-memory virtual file system used by the numpy/json/open stubs.
+"""symx.vfs -- in-memory virtual file system used by the numpy / json / struct / open stubs.
 
-Contract (part of the trusted base): a table written with delimiter a parses under
-delimiter b iff a == b or every row has a single column; default-format decimal text
-round-trips a float64 exactly.
+Contract (part of the trusted base, exercised concretely by the conformance gates):
+ * a table written with delimiter a parses under delimiter b iff a == b or every row has one column;
+   numpy's default '%.18e' text round-trips a float64 exactly;
+ * json.dump / json.load round-trip ints, floats, strings, lists and dicts;
+ * a binary OPF file is a sequence of typed 4-byte fields ('i' int32, 'f' float32); struct.unpack(fmt, data)
+   hands out the fields covered by the bytes that were read, in order, and requires fmt to match their types;
+ * files opened in binary mode for pickle are real in-memory byte streams.
 """
+import io
+import copy
+
 FILES = {}
-
-
-class VfsError(Exception):
-    pass
 
 
 def reset():
@@ -30,12 +33,103 @@ def read_table(name, delimiter):
         delimiter = " "
     ncols = max(len(r) for r in rows) if rows else 0
     if ncols > 1 and d != delimiter:
-        raise ValueError("could not convert string '...' to float64 (written with delimiter %r, read with %r)" % (d, delimiter))
+        raise ValueError("could not convert string '...' to float64 (file written with delimiter %r, read with %r)" % (d, delimiter))
     return [list(r) for r in rows]
 
 
+def write_binary(name, fields):
+    """fields: list of (kind, value) with kind in 'i', 'f'"""
+    FILES[str(name)] = ("binary", list(fields), None)
+
+
+class SymBytes:
+    def __init__(self, fields):
+        self.fields = fields
+
+    def __len__(self):
+        return 4 * len(self.fields)
+
+
+class _BinReader:
+    def __init__(self, name, fields):
+        self.name = name
+        self.fields = fields
+        self.pos = 0
+
+    def read(self, size=-1):
+        if size is None or size < 0:
+            size = 4 * (len(self.fields) - self.pos)
+        if size % 4:
+            raise ValueError("vfs: unaligned binary read of %d bytes" % size)
+        k = size // 4
+        chunk = self.fields[self.pos:self.pos + k]
+        self.pos += len(chunk)
+        return SymBytes(chunk)
+
+    def __enter__(self):
+        return self
+
+    def __exit__(self, *a):
+        return False
+
+    def close(self):
+        pass
+
+
+class _TextHandle:
+    def __init__(self, name, mode):
+        self.name = name
+        self.mode = mode
+
+    def __enter__(self):
+        return self
+
+    def __exit__(self, *a):
+        return False
+
+    def close(self):
+        pass
+
+
+class _BytesHandle(io.BytesIO):
+    def __init__(self, name, mode):
+        self._name = name
+        self._mode = mode
+        if "r" in mode:
+            kind, data, _ = FILES[name]
+            super().__init__(data)
+        else:
+            super().__init__()
+
+    def close(self):
+        if "w" in self._mode and not self.closed:
+            FILES[self._name] = ("bytes", self.getvalue(), None)
+        super().close()
+
+    def __exit__(self, *a):
+        self.close()
+        return False
+
+
+def open_file(name, mode="r"):
+    name = str(name)
+    if "b" in mode:
+        if "r" in mode:
+            if name not in FILES:
+                raise FileNotFoundError(name)
+            kind, data, _ = FILES[name]
+            if kind == "binary":
+                return _BinReader(name, data)
+            if kind == "bytes":
+                return _BytesHandle(name, mode)
+            raise ValueError("vfs: %s is not a binary file" % name)
+        return _BytesHandle(name, mode)
+    if "r" in mode and name not in FILES:
+        raise FileNotFoundError(name)
+    return _TextHandle(name, mode)
+
+
 def write_json(name, obj):
-    import copy
     FILES[str(name)] = ("json", copy.deepcopy(obj), None)
 
 
@@ -46,5 +140,4 @@ def read_json(name):
     kind, obj, _ = FILES[name]
     if kind != "json":
         raise ValueError("not a json file")
-    import copy
     return copy.deepcopy(obj)
